@@ -58,6 +58,10 @@ type Outcome = (Option<u32>, Vec<Result<Parts, GeneratorError>>);
 fn observe<V: Variant>(g: &V::G) -> Outcome {
     let mut v = Vec::with_capacity(32);
     for o in 0..32u8 {
+        if !super::c01::opt_selected(o) {
+            v.push(Err(GeneratorError::TooSmallInput));
+            continue;
+        }
         v.push(
             g.finalize_with_options(&options(Opts(o)))
                 .map(|h| V::parts(&h)),
